@@ -3,7 +3,8 @@
 R-COPY: with entry (c, r) anchored on from_cols, every array/slice accessor lists column 0 first, col/row/col_mut
 (per constant index), the axis fields, from_diagonal, transpose and the minor constructors (per constant (i, j))
 are the stated permutations of entries, bit-exact.  R-ALG: M*v = sum_c v[c]*col(c) and transform_point/vector =
-linear*p (+ translation), as exact polynomial identities."""
+linear*p (+ translation), as exact polynomial identities.  R-COMPOSE: every matrix x matrix, affine x affine and mixed affine x matrix
+product operator returns the homogeneous matrix product of its operands entry by entry, which with the M*v rule gives (A*B)*v = A*(B*v)."""
 import re
 import terms as tm
 from terms import const
@@ -295,6 +296,50 @@ def run(ctx):
                                 bad = 'row %d of the product is not sum_c M[c][%d]*v[c]%s' % (rr, rr, ' + translation' if affine and point else '')
                                 break
                 done('R-ALG', name, bad, it)
+        # (A*B)*v = A*(B*v): every matrix/affine product operator yields the homogeneous matrix product of its operands
+        from spec import Spec
+        from C05 import embed
+        from lift import result_of
+        for name, it in api_roots(F):
+            tr = (it.get('trait') or '').rsplit('::', 1)[-1]
+            mname = it.get('name') or ''
+            body = F.body(it['key'])
+            if body is None or body['argc'] != 2:
+                continue
+            argtys = body['locals'][1:3]
+            infos = [M.info(strip_ref(F, a)[0]) for a in argtys]
+            if any(i is None for i in infos):
+                continue
+            if not (tr in ('Mul', 'MulAssign') or (not tr and re.match(r'^mul_mat\d$', mname))):
+                continue
+            r = H.run(it['key'])
+            if r.abort or r.panics:
+                done('R-COMPOSE', name, r.abort or 'reachable panic site in a matrix product', it)
+                continue
+            alg = nf.Algebra()
+            S = Spec(alg)
+            kres, oty, val = result_of(F, r, body)
+            dmi = M.info(oty)
+            dst = M.entries(val, oty) if val is not None else None
+            if dmi is None or dst is None:
+                ctx.unverifiable('R-COMPOSE', cfg, name, 'result of a matrix product is not a matrix')
+                continue
+            dst = {k: alg.nf(v_) for k, v_ in dst.items()}
+            ops = []
+            for i, aty in enumerate(argtys):
+                e, mi_ = M.arg_entries(r, i, aty)
+                ops.append(({k: alg.nf(v_) for k, v_ in e.items()}, mi_))
+            n = max(max(mi_['cols'], mi_['rows']) for (_, mi_) in ops)
+            emb = [embed(S, e, mi_['cols'], mi_['rows'], n) for (e, mi_) in ops]
+            exp = S.matmul(emb[0], emb[1], n)
+            got = embed(S, dst, dmi['cols'], dmi['rows'], n)
+            bad = None
+            for k in sorted(exp):
+                if not S.eq(got[k], exp[k]):
+                    bad = 'entry (col %d,row %d) of A*B is not sum_k A[k][row]*B[col][k] (homogeneous embedding), so (A*B)*v differs from A*(B*v)' % k
+                    break
+            done('R-COMPOSE', name, bad, it)
+        ctx.floor('matrix product operators (%s)' % cfg, counts.get('R-COMPOSE', 0), 36)
         ctx.floor('matrix / affine types (%s)' % cfg, len(types), 11)
         for k, v in sorted(counts.items()):
             ctx.count('%s:%s' % (k, cfg), v)
